@@ -272,7 +272,7 @@ def run_cases(r, quick):
     for oi, name in enumerate(OPTIMIZERS):
         for sbo in (False, True):
             if quick:
-                sizes = [sizes_q[(oi + int(sbo)) % 2]]
+                sizes = [sizes_q[oi % 2]] if sbo else list(sizes_q)
             else:
                 sizes = list(sizes_t)
             if name in ('pso', 'aiwpso') and (not quick or sbo is False):
@@ -506,7 +506,7 @@ def main():
         return
     r = hlib.rng('c19')
     runs, skipped = run_cases(r, hlib.QUICK)
-    specs = sequence_specs(hlib.rng('c19seq'), 120 if hlib.QUICK else 1500)
+    specs = sequence_specs(hlib.rng('c19seq'), 300 if hlib.QUICK else 3000)
     seqs = []
     for s in specs:
         out = run_sequence(s)
